@@ -745,6 +745,7 @@ def sec_grid_node(rep):
     o = ob_eval("C02/grid-node/A-eko-instance", ok, kind="bounded", detail="eko basis_j(x_k)=delta_jk on one grid (assumption A-eko; instance only)")
     o.bounded = True
     rep.add(o)
+    H.eko_basis_standin(rep)
 
 
 # ---------------------------------------------------------------------------------------
@@ -798,7 +799,7 @@ def run(rep, tier, seed, only=None):
         "spec/ew.py is hand-typed from the PDG structure-function review (oracle)",
         "neutrino 'polarization' sign convention taken as opposite to charged leptons (PDG defines none)",
         "A-np: numpy object-dtype arithmetic is the real reading of float64 arithmetic",
-        "A-eko: basis_j(x_k) = delta_jk and evaluate_x consistency (grid-node lemma); instance-checked only",
+        "A-eko: basis_j(x_k) = delta_jk, partition of unity, continuity of the basis functions -- assumed for arbitrary grids; bounded stand-in: proved by z3 for every x on six grids by executing eko's real evaluate_x / log_evaluate_x symbolically",
         "gluon/singlet/valence weights specified as flavour averages (charge average), see DESIGN C02",
         "identity tolerance 1e-12 relative (concrete float sub-computations such as np.mean of charges)",
     )
